@@ -268,7 +268,7 @@ class AppRec:
             q = app._message_queue
             ev = app._close_event
             flags += [bool(app.closed), bool(q.is_stopped()), 'none' if ev is None else ('set' if ev.is_set() else 'unset'),
-                      q._msg_queue.qsize(), q._dispatcher_task is not None]
+                      len(getattr(q, '_unclaimed', ())) + q._msg_queue.qsize(), q._dispatcher_task is not None]
         return sorted(run), sorted(alive), flags
 
 
@@ -578,9 +578,10 @@ def run_app_scenario(kind, mode, cb_beh, msg_beh, script, hb=0.004, settle=0.05,
                                   if t_.done() and not t_.cancelled() and t_ is not me and t_.exception() is not None]
         q1, q2 = [], []
         try:
-            q1 = [inner_token(m) for m in list(s._msg_queue._msg_queue._queue)]
+            # what the next reader finds, in order: the stash of a late-cancelled receive (`_unclaimed`, read first), then the queue
+            q1 = [inner_token(m) for m in list(getattr(s._msg_queue, '_unclaimed', ())) + list(s._msg_queue._msg_queue._queue)]
             if app is not None:
-                q2 = [token(m) for m in list(app._message_queue._msg_queue._queue)]
+                q2 = [token(m) for m in list(getattr(app._message_queue, '_unclaimed', ())) + list(app._message_queue._msg_queue._queue)]
         except Exception:   # noqa
             q1 = q2 = None
         out['q1'], out['q2'] = q1, q2
@@ -683,7 +684,7 @@ CC_BEHS = [('cc', 1), ('ccsleep', 1), ('ccsleep', 4), ('ccsleep', 8)]
 def gen_template(rng, kind):
     """dense versions of the interleavings that matter most (the random mix reaches them too, but rarely)"""
     t = rng.choice(['burst-close', 'burst-close', 'race', 'race', 'blocked-recv', 'cancel-closer', 'inflight', 'inflight', 'two-closers',
-                    'leftovers'])
+                    'leftovers', 'late-cancel', 'late-cancel'])
     turns = lambda a, b: ('turns', rng.randint(a, b))
     tick = lambda: ('advance', rng.choice([0.0001, 0.0001, 0.0002, 0.0003]))
     trigger = lambda u: rng.choice([('close', u), ('close', u), ('eos',), ('eof',), ('sclose', u), ('iclose',), ('logout',)])
@@ -727,6 +728,30 @@ def gen_template(rng, kind):
         if rng.random() < 0.5:
             sc['msg_beh'][2] = rng.choice(MSG_BEHS + CC_BEHS)
         sc['script'] = [('data', [1, 2, 3]), tick(), trigger(2), turns(0, 3)] + ([trigger(3)] if rng.random() < 0.5 else [])
+    elif t == 'late-cancel':
+        # pull mode: receive_message() is cancelled in the one-turn window after its helper task took the value off the application
+        # queue (the former finding C04-late-cancel-loses-message on the second queue).  Right after login, `advance 0.0001` (one
+        # reader poll) followed by two loop turns is that window: soup dispatcher -> _on_soup_message -> put -> helper -> caller.
+        # What follows must see the held value first: the next receive_message(), a second late cancel, a close in the same turns.
+        sc['mode'] = 'pull'
+        k = rng.randint(1, 3)
+        f = rng.choice(['recv', 'recv', 'twice', 'stop', 'leave'])
+        sc['script'] = [('recv', 2), ('turns', 3), ('data', list(range(1, k + 1))), ('advance', 0.0001)]
+        if f == 'stop':
+            a = rng.randint(0, 2)
+            sc['script'] += [('turns', a), trigger(9), ('turns', 2 - a)]
+        else:
+            sc['script'] += [('turns', rng.choice([2, 2, 2, 2, 2, 1, 3]))]
+        sc['script'] += [('cancel', 2), turns(1, 4)]
+        if f != 'leave':
+            sc['script'] += [('recv', 3), turns(1, 3)]
+        if f == 'twice':
+            sc['script'] += [('advance', 0.0005), ('recv', 4), turns(1, 3), ('recv', 5), ('turns', 3), ('data', [10, 11]), ('advance', 0.0001),
+                             ('turns', rng.choice([2, 2, 2, 1, 3])), ('cancel', 5), turns(1, 3), ('recv', 6), turns(1, 3)]
+        elif rng.random() < 0.5:
+            sc['script'] += [('advance', 0.0005), ('recv', 4), turns(1, 3)]
+        if rng.random() < 0.3:
+            sc['script'] += [trigger(8), turns(0, 3), ('recv', 7)]
     elif t == 'two-closers':
         sc['mode'] = rng.choice(['pull', 'callback'])
         sc['script'] = [('close', 2), turns(0, 4), ('close', 3), turns(0, 4), ('close', 4)] + ([('cancel', rng.choice([2, 3]))] if rng.random() < 0.4 else [])
@@ -877,13 +902,13 @@ def sent_values(sc):
 
 
 def late_cancels(sc, out):
-    """receive_message() calls cancelled after the helper task already held a message (the known finding
-    C04-late-cancel-loses-message, here on the application queue)"""
+    """receive_message() calls cancelled after the helper task already held a message (the window of the former finding
+    C04-late-cancel-loses-message, here on the application queue; repaired).  Counted for the evidence distribution only."""
     n = 0
     evs = [ev for ev, _, _ in out['log']]
     rets = {o[1]: o[2] for o in out['obs'] if isinstance(o, tuple) and o[0] == 'ret'}
     for ic, ev in enumerate(evs):
-        if isinstance(ev, list) and ev[0] == 'acancel' and rets.get(ev[1]) == 'cancelled':
+        if isinstance(ev, list) and ev[0] == 'acancel' and rets.get(ev[1]) in ('cancelled', 'eoq'):
             starts = [k for k, e in enumerate(evs[:ic]) if e == ['arecv', ev[1]]]
             if starts and sum(1 for e in evs[starts[-1]:ic] if e == ['run', 'V2']) >= 2:
                 n += 1
@@ -906,17 +931,7 @@ def app_oracle(sc, out, prop):
     if prop == 'C04':
         seen = delivered if sc['mode'] == 'callback' else recvd
         if seen != sent[:len(seen)]:
-            it, gaps, ok = iter(sent), 0, True
-            for d in seen:
-                for w in it:
-                    if w == d:
-                        break
-                    gaps += 1
-                else:
-                    ok = False
-                    break
-            kind = 'late-cancel-lost-message' if (ok and 0 < gaps <= late_cancels(sc, out)) else 'scenario'
-            v.append((f'application session handed {seen} to the consumer, the peer sent {sent}', kind))
+            v.append((f'application session handed {seen} to the consumer, the peer sent {sent}', 'scenario'))
         elif out.get('q2') is not None and not out['pending']:
             # conservation: every decoded payload handed to the application session is delivered or still queued (a cancelled
             # receive "consumes no message … the next receive returns the next undelivered message")
@@ -931,10 +946,8 @@ def app_oracle(sc, out, prop):
                         elif isinstance(d, list):
                             fed.append(d[1])
             if seen + list(out['q2']) != fed:
-                missing = len(fed) - len(seen) - len(out['q2'])
-                kind = 'late-cancel-lost-message' if 0 < missing <= late_cancels(sc, out) else 'scenario'
                 v.append((f'application session: decoded messages {fed} reached the second queue, the consumer saw {seen} and '
-                          f'{out["q2"]} remained queued', kind))
+                          f'{out["q2"]} remained queued', 'scenario'))
         for ev, _, _ in out['log']:
             if isinstance(ev, list) and ev[0] == 'acancel':
                 r = [o[2] for o in obs if isinstance(o, tuple) and o[0] == 'ret' and o[1] == ev[1]]
@@ -1037,7 +1050,10 @@ def corpus_scenarios(prop):
         if os.path.isdir(d):
             for fn in sorted(os.listdir(d)):
                 if fn.startswith('app-') and fn.endswith('.json'):
-                    out.append((sc_from_json(json.load(open(os.path.join(d, fn)))['app_scenario']), 'corpus:' + fn))
+                    sc = sc_from_json(json.load(open(os.path.join(d, fn)))['app_scenario'])
+                    if sc['kind'] == 'asn1' and not asn1_available():
+                        continue
+                    out.append((sc, 'corpus:' + fn))
     return out
 
 
@@ -1098,8 +1114,6 @@ def replay_witnesses(ctx, prop):
             ctx.violation(f'running the witness scenario {name} raised {type(e).__name__}: {e}', {'kind': 'scenario', 'app_scenario': sc_to_json(sc)})
             continue
         impl_obs = app_level([o for _, os_, _ in out['log'] for o in os_])
-        if name == 'C04App-late-cancel':
-            impl_obs = impl_obs[:len(model_obs)]       # the witness stops while the second receive is still waiting
         ctx.case({'witness': name}, nontrivial=True)
         ctx.count('app-witness:' + name)
         if impl_obs != model_obs:
@@ -1114,6 +1128,111 @@ def replay_witnesses(ctx, prop):
             ctx.violation(what, {'kind': kind, 'app_scenario': sc_to_json(sc)})
 
 
+def stash_then_construct(kind, n_first=2, n_later=1, window=True, settle=0.005):
+    """(not modelled: the Lean product machine constructs the application session in the step in which login() returns; oracle only)
+    A soup session used in pull mode: `receive_msg()` is cancelled in the turn after its helper task took the first message (late
+    cancel: the message goes to the queue's stash); then an application session is constructed on that soup session —
+    `set_handlers` + `soup_session.start_dispatching()`, what `ClientSession.__attrs_post_init__` does.  The soup dispatcher must
+    hand the stashed message to the application session FIRST: the application callback sees every value in the order sent.
+    (Seeded C04k / C04n repaired the cancelled receive but forgot the dispatcher.)  window=False: the cancel lands one turn earlier
+    (the helper is cancelled too, nothing is held) — the control case."""
+    from nasdaq_protocols import soup
+    sess_cls, payload, token = app_defs(kind)
+    loop = VirtualLoop()
+    got, out = [], {}
+    vals = list(range(1, n_first + n_later + 1))
+
+    def payload_token(data):
+        return token(sess_cls.decode(data)[1])
+    CUR['tok_of_payload'] = payload_token
+
+    async def main():
+        s = soup.SoupClientSession(client_heartbeat_interval=0.004, server_heartbeat_interval=0.004)
+        s.connection_made(FakeTransport())
+        t = asyncio.ensure_future(s.receive_msg())
+        for _ in range(3):
+            await asyncio.sleep(0)
+        rd = s._reader
+        fut = asyncio.get_running_loop().create_future()
+        orig = rd.on_msg_coro
+
+        async def hooked(m):
+            rd.on_msg_coro = orig
+            if not window and not fut.done():
+                fut.set_result(None)        # continue ahead of the helper task the put is about to wake
+            try:
+                return await orig(m)
+            finally:
+                if not fut.done():
+                    fut.set_result(None)    # continue behind the helper task: it has taken the message, the caller has not resumed
+        rd.on_msg_coro = hooked
+        s.data_received(b''.join(soup.SequencedData(payload(v)).to_bytes()[1] for v in vals[:n_first]))
+        try:
+            await asyncio.wait_for(fut, 0.01)
+        except asyncio.TimeoutError:
+            pass
+        h = s._msg_queue._recv_task
+        out['window'] = bool(h is not None and h.done() and not h.cancelled() and not t.done())
+        t.cancel()
+        try:
+            m = await t
+            out['first'] = ['msg', inner_token(m)]
+        except asyncio.CancelledError:
+            out['first'] = 'cancelled'
+        except Exception as e:   # noqa
+            out['first'] = err_name(e)
+
+        async def on_msg(m):
+            got.append(token(m))
+        try:
+            sess_cls(s, on_msg_coro=on_msg)
+        except Exception as e:   # noqa
+            out['construct'] = err_name(e)
+        await asyncio.sleep(settle)
+        if n_later:
+            s.data_received(b''.join(soup.SequencedData(payload(v)).to_bytes()[1] for v in vals[n_first:]))
+            await asyncio.sleep(settle)
+        out['closed'] = s.is_closed()
+        await s.close()
+    try:
+        loop.run(main())
+    finally:
+        out['loop_exceptions'] = [str(c.get('message')) for c in loop.loop_exceptions]
+        loop.shutdown()
+    out['got'], out['sent'] = got, vals
+    return out
+
+
+def construct_on_stash(ctx, only=None):
+    """C04: late cancel of a soup-level pull, then an application session of every kind constructed on that soup session"""
+    kinds = KINDS if asn1_available() else KINDS[:3]
+    for kind in kinds:
+        for window in (True, False):
+            for n_first, n_later in ((1, 1), (2, 1), (3, 0)):
+                if only is not None and only != [kind, window, n_first, n_later]:
+                    continue
+                rep = {'kind': 'scenario', 'late_construct': [kind, window, n_first, n_later]}
+                try:
+                    out = stash_then_construct(kind, n_first, n_later, window)
+                except Exception as e:   # noqa
+                    ctx.violation(f'late cancel then application session on the soup session: raised {type(e).__name__}: {e}', rep)
+                    continue
+                ctx.case({'late_construct': rep['late_construct']}, nontrivial=True)
+                ctx.count('app-construct-on-stash:' + kind)
+                if out['window']:
+                    ctx.count('late-cancel-window:construct')
+                if only is not None:
+                    print('late_construct', rep['late_construct'], out)
+                if out['first'] != 'cancelled':
+                    ctx.violation(f'receive_msg() was cancelled while pending but ended with {out["first"]!r}', rep)
+                elif out['got'] != out['sent']:
+                    ctx.violation(f'pull cancelled {"after" if out["window"] else "before"} its helper task took a message, then an {kind} '
+                                  f'application session was constructed on the soup session: the peer sent {out["sent"]}, the application '
+                                  f'callback saw {out["got"]}', rep)
+                elif out['loop_exceptions']:
+                    ctx.violation(f'exception reached the event loop: {out["loop_exceptions"][0]}', rep)
+
+
 def run_family_app(ctx, prop):
     """application scenarios: implementation run, replay through the Lean product machine, property oracle"""
     rng = ctx.rng
@@ -1122,6 +1241,8 @@ def run_family_app(ctx, prop):
         replay_witnesses(ctx, prop)
     except Exception as e:   # noqa
         ctx.disagree(f'application session: could not replay the Lean witnesses: {type(e).__name__}: {e}', {'kind': 'witness'})
+    if prop == 'C04':
+        construct_on_stash(ctx)
     cases = corpus_scenarios(prop)
     for _ in range(n_app):
         r = random.Random(rng.random())
@@ -1149,6 +1270,9 @@ def run_family_app(ctx, prop):
                 ctx.count('app-steps:' + ev[1])
             elif isinstance(ev, list) and ev[0] in ('aclose', 'arecv', 'acancel'):
                 ctx.count('app-ext:' + ev[0])
+        lc = late_cancels(norm_scenario(sc), out)
+        if lc:
+            ctx.count('app-late-cancel-window', lc)
         for what, kind in app_oracle(sc, out, prop):
             ctx.violation(what, {'kind': kind, 'app_scenario': sc_to_json(sc)})
         if ans is not None:
